@@ -27,6 +27,7 @@ func VerifC03OneInput() {
 	g, obs := kitGroup(kitConfig())
 	var ins []*c03Input
 	cur := -1 // index of the accepted input
+	pullGone := 0
 	for s := 0; s < steps; s++ {
 		op := vrt.Pick(vrt.Range("op", 0, 5))
 		switch {
@@ -73,6 +74,12 @@ func VerifC03OneInput() {
 			in := ins[k]
 			if in.kind == 4 {
 				continue // the GB28181 session object is owned by the group; it leaves through the group only
+			}
+			if in.gone {
+				continue // a session leaves once: its own goroutine reports the end of the connection exactly once
+			}
+			if in.kind == 3 {
+				pullGone++
 			}
 			switch in.kind {
 			case 0:
@@ -125,7 +132,14 @@ func VerifC03OneInput() {
 				vrt.Assert(g.psPubSession != nil, "the accepted GB28181 publisher is still the input")
 			}
 		}
-		vrt.Assert(obs.pullStop <= obs.pullStart+1, "pull notifications")
+		pullAccepted := 0
+		for _, in := range ins {
+			if in.kind == 3 && in.accepted {
+				pullAccepted++
+			}
+		}
+		vrt.Assert(obs.pullStart == pullAccepted, "a relay pull reports a start only if it attached")
+		vrt.Assert(obs.pullStop == pullGone, "a relay-pull attempt reports exactly one stop")
 	}
 	vrt.Cover("end")
 }
